@@ -153,6 +153,17 @@ static void check_ops(int d, const std::vector<double>& a, const std::vector<dou
     { SU_vector c = va; SU_vector r = -std::move(c); std::vector<double> ng(n); for (int k = 0; k < n; k++) ng[k] = -a[k]; cmp("-move(a)", r, ng, 0); }
     { SU_vector c = va; c -= SU_vector(vb); cmp("a-=SU_vector(b)", c, dif, 0); SU_vector e = va; e += SU_vector(vb); cmp("a+=SU_vector(b)", e, sum, 0); }
   }
+  { // compound assignment from an expression that contains the target itself
+    std::vector<double> w1(n), w2(n), w3(n), w4(n), w5(n), w6(n);
+    for (int k = 0; k < n; k++) { double s1 = a[k] + b[k], s2 = b[k] + a[k], d1 = a[k] - b[k], m = a[k] * 2.0, ng = -a[k]; w1[k] = a[k] + s1; w2[k] = a[k] - s1; w3[k] = a[k] + s2; w4[k] = a[k] - d1; w5[k] = a[k] + m; w6[k] = a[k] - ng; }
+    { SU_vector v = va; v += v + vb; cmp("v+=v+w", v, w1, 0); }
+    { SU_vector v = va; v -= v + vb; cmp("v-=v+w", v, w2, 0); }
+    { SU_vector v = va; v += vb + v; cmp("v+=w+v", v, w3, 0); }
+    { SU_vector v = va; v -= v - vb; cmp("v-=v-w", v, w4, 0); }
+    { SU_vector v = va; v += v * 2.0; cmp("v+=v*2", v, w5, 0); }
+    { SU_vector v = va; v -= -v; cmp("v-=-v", v, w6, 0); }
+    { SU_vector v = va; SU_vector view((unsigned)d, &v[0]); v += view + vb; cmp("v+=view_of_v+w", v, w1, 0); }
+  }
   if (!(va == va) || !(vb == vb)) violation(dsig("operator==:not-reflexive", d), J().i("d", d).arr("a", a).done());
   bool same = true; for (int k = 0; k < n; k++) if (a[k] != b[k]) same = false;
   if ((va == vb) != same) violation(dsig("operator==:wrong", d), J().i("d", d).arr("a", a).arr("b", b).done());
